@@ -1,7 +1,7 @@
 // C10 (kernel: MpmcRingBuffer): the payload written by a producer is read by the consumer that pops
 // it, and slots are reused by later producers; every such pair of plain accesses must be ordered by
 // the declared memory orders of the slot sequence numbers / head / tail (no data race).
-// VF_KIND 0: one producer (3 emplaces: slot 0 is reused), one consumer (main, 2 pops + drain)
+// VF_KIND 0: one producer (3 emplaces: slot 0 is reused), main pops once while it runs, then 2 pops
 // VF_KIND 1: two producers (1 emplace each), one consumer thread (2 pops), drain by main
 #include <dispenso/mpmc_ring_buffer.h>
 #include "vf.h"
@@ -35,10 +35,9 @@ extern "C" void vf_main() {
   vf_spawn(producer, nullptr);
   Probe out{Probe::Private{}};
   R.try_pop(out);
-  R.try_pop(out);
   vf_join_all();
-  while (R.try_pop(out)) {
-  }
+  R.try_pop(out);
+  R.try_pop(out);
 }
 #else
 static void producerA(void*) { R.try_emplace(1); }
@@ -55,7 +54,6 @@ extern "C" void vf_main() {
   vf_spawn(consumer, nullptr);
   vf_join_all();
   Probe out{Probe::Private{}};
-  while (R.try_pop(out)) {
-  }
+  R.try_pop(out);
 }
 #endif
